@@ -1887,6 +1887,10 @@ fn generate_autocoerce(
 	llvm: &mut Generator,
 ) -> Result<LLVMValueRef, anyhow::Error>
 {
+	if let Expression::Parenthesized { inner } = expression
+	{
+		return generate_autocoerce(inner, coerced_type, llvm);
+	}
 	match coerced_type
 	{
 		ValueType::Slice { element_type } => match expression
